@@ -242,7 +242,7 @@ impl Prop for C03 {
         let n_max = if exact { 24 } else { 64 };
         // chains are decided in exact mode only: in f64 an outer normaliser over a smoothed inner signal can
         // amplify rounding residue of two honest histories (sign of a ~0 change), which is C16's subject
-        let chain = exact && r.chance(if tier == Tier::Thorough { 0.5 } else { 0.3 });
+        let chain = exact && r.chance(0.5);
         let tree = if chain && !matches!(k, K::MyRsi | K::Roc) {
             let ki = *r.pick(pool);
             let inner = gen_windowed(r, ki, n_max.min(12), Spec::echo());
@@ -582,7 +582,7 @@ impl Prop for C03 {
     }
 
     fn rule(&self) -> String {
-        "Views cycle systematically through Sma, Cumulative, Min, Max, Roc, WelfordOnline (last, mean(), variance()), Vst, Vsct, HLNormalizer, BinaryEntropy, CenterOfGravity, CorrelationTrendIndicator, NoiseEliminationTechnology, Rsi, MyRSI, Alma (default and custom), PFE over {Sma, Alma}; 30% (thorough 50%) of the exact-mode runs are two-level chains of them (K = K_outer + K_inner - 1). Two replicas of the same tree: one base stream (0-300 values, 5% 400-1500, 3% 3 000-60 000; 0.15% of runs give one replica a generated history of 4.2k-20k, 66-80k, 132-150k or (f64 mode) 1.05-1.1M values) gets an independent fault realisation per replica (drop, duplicate, reorder, corrupt, spike bursts up to 1e12 S in exact mode, up to 300/500 extra prefix values), then both receive the same clean suffix of K..K+3N values (grid with ties, flat, two-valued, zero-laden, zero-sum, volatile-then-flat, random walk, step); deliveries of the two replicas are interleaved by a random bit schedule. K = N; N+1 for Rsi, MyRSI, Roc; 2N for Alma; N+K(ma)-1 for PFE. Oracle: at every suffix step s >= K the two outputs are equal. One run in six is executed with the library instantiated at the exact scalar Q (rational arithmetic; no tolerance) and decides; the others run at f64 for the views without error amplification (tolerance 1e-6 of the output scale, dynamic range <= 1e4, conditioned suffix for Rsi/MyRSI/Roc). Steps where MyRSI's N most recent changes are all zero or Roc's base is 0 are exempt from the comparison (computed from the suffix), but there the exception is verified instead: each replica must report exactly its own previous output. distinct = distinct (topology, feed lengths, schedule bits); non-trivial = the two prefixes differ and at least one step was compared."
+        "Views cycle systematically through Sma, Cumulative, Min, Max, Roc, WelfordOnline (last, mean(), variance()), Vst, Vsct, HLNormalizer, BinaryEntropy, CenterOfGravity, CorrelationTrendIndicator, NoiseEliminationTechnology, Rsi, MyRSI, Alma (default and custom), PFE over {Sma, Alma}; half of the exact-mode runs are two-level chains of them (K = K_outer + K_inner - 1). Two replicas of the same tree: one base stream (0-300 values, 5% 400-1500, 3% 3 000-60 000; 0.15% of runs give one replica a generated history of 4.2k-20k, 66-80k, 132-150k or (f64 mode) 1.05-1.1M values) gets an independent fault realisation per replica (drop, duplicate, reorder, corrupt, spike bursts up to 1e12 S in exact mode, up to 300/500 extra prefix values), then both receive the same clean suffix of K..K+3N values (grid with ties, flat, two-valued, zero-laden, zero-sum, volatile-then-flat, random walk, step); deliveries of the two replicas are interleaved by a random bit schedule. K = N; N+1 for Rsi, MyRSI, Roc; 2N for Alma; N+K(ma)-1 for PFE. Oracle: at every suffix step s >= K the two outputs are equal. One run in six is executed with the library instantiated at the exact scalar Q (rational arithmetic; no tolerance) and decides; the others run at f64 for the views without error amplification (tolerance 1e-6 of the output scale, dynamic range <= 1e4, conditioned suffix for Rsi/MyRSI/Roc). Steps where MyRSI's N most recent changes are all zero or Roc's base is 0 are exempt from the comparison (computed from the suffix), but there the exception is verified instead: each replica must report exactly its own previous output. distinct = distinct (topology, feed lengths, schedule bits); non-trivial = the two prefixes differ and at least one step was compared."
             .into()
     }
     fn assumptions(&self) -> Vec<String> {
